@@ -565,6 +565,15 @@ func (m *metadataAPI) ShrinkISR(ctx context.Context, req *proto.ShrinkISROp) *st
 				leader, epoch, req.Leader, req.LeaderEpoch))
 	}
 
+	// The leader is in sync with itself by definition and new leaders are only
+	// ever chosen from the ISR, so the leader cannot be removed from it.
+	if req.ReplicaToRemove == leader {
+		return status.New(
+			codes.FailedPrecondition,
+			fmt.Sprintf("Cannot remove leader %s from ISR [stream=%s, partition=%d]",
+				leader, req.Stream, req.Partition))
+	}
+
 	// Replicate ISR shrink through Raft.
 	op := &proto.RaftLog{
 		Op:          proto.Op_SHRINK_ISR,
